@@ -205,6 +205,22 @@ def check_laws(rows):
             cnt["quote_shape"] += 1
             if len(bq) < 2 or bq[0] != 0x22 or bq[-1] != 0x22:
                 fails.append({"law": "quote_shape", "s": s, "q": q})
+            # every double quote inside the body is escaped, no escape left open (law_quote_shape / escaped_ok)
+            body, i, okb = bq[1:-1], 0, True
+            while i < len(body):
+                if body[i] == 0x22:
+                    okb = False
+                    break
+                if body[i] == 0x5c:
+                    if i + 1 >= len(body):
+                        okb = False
+                        break
+                    i += 2
+                else:
+                    i += 1
+            cnt["quote_escaped"] = cnt.get("quote_escaped", 0) + 1
+            if not okb:
+                fails.append({"law": "quote_escaped", "s": s, "q": q})
             cnt["quote_ws"] += 1
             if any(c in bq for c in b"\t\n\x0c\r") or (b" " in bq and b" " not in bs):
                 fails.append({"law": "quote_ws", "s": s, "q": q})
